@@ -471,9 +471,121 @@ def fuse_nested_comprehensions(tree):
     return count
 
 
+def generators_to_loops(tree):
+    """N17: generator plumbing is written out as loops (to fixpoint):
+         yield from chain.from_iterable(E)            ->  for g in E: yield from g
+         for X in (G for T in I if C): yield from X   ->  for T in I: if C: yield from G
+         for X in (G for T in I if C): BODY           ->  for T in I: if C: X = G; BODY        (single generator)
+         yield from (E for T in I if C)               ->  for T in I: if C: yield E
+       The comprehension's targets become function locals: applied only when those names occur nowhere else in the function."""
+    import copy
+    count = [0]
+    fresh = [0]
+
+    def names_of(t):
+        return {n.id for n in ast.walk(t) if isinstance(n, ast.Name)}
+
+    def rewrite_function(fn):
+        def occurrences(name, excluding):
+            ex = {id(n) for n in ast.walk(excluding)}
+            return sum(1 for n in ast.walk(fn) if isinstance(n, ast.Name) and n.id == name and id(n) not in ex) + \
+                sum(1 for a in ast.walk(fn.args) if isinstance(a, ast.arg) and a.arg == name)
+
+        def wrap(gens, inner):
+            body = inner
+            for g in reversed(gens):
+                for t in reversed(g.ifs):
+                    body = [ast.If(test=t, body=body, orelse=[])]
+                body = [ast.For(target=g.target, iter=g.iter, body=body, orelse=[])]
+            return body
+
+        def ok_targets(comp):
+            return all(occurrences(nm, comp) == 0 for g in comp.generators for nm in names_of(g.target)) and not any(g.is_async for g in comp.generators)
+
+        def rec(stmts):
+            out = []
+            for s in stmts:
+                for fld in ('body', 'orelse', 'finalbody'):
+                    sub = getattr(s, fld, None)
+                    if isinstance(sub, list) and sub and isinstance(sub[0], ast.stmt) and not isinstance(s, (ast.FunctionDef, ast.AsyncFunctionDef, ast.ClassDef)):
+                        setattr(s, fld, rec(sub))
+                if isinstance(s, ast.Try):
+                    for h in s.handlers:
+                        h.body = rec(h.body)
+                new = None
+                if isinstance(s, ast.Expr) and isinstance(s.value, ast.YieldFrom):
+                    v = s.value.value
+                    if isinstance(v, ast.Call) and len(v.args) == 1 and not v.keywords and (ast.unparse(v.func) in ('chain.from_iterable', 'itertools.chain.from_iterable')):
+                        fresh[0] += 1
+                        nm = f'_group__g{fresh[0]}'
+                        new = [ast.For(target=ast.Name(id=nm, ctx=ast.Store()), iter=v.args[0], body=[ast.Expr(value=ast.YieldFrom(value=ast.Name(id=nm, ctx=ast.Load())))], orelse=[])]
+                    elif isinstance(v, (ast.GeneratorExp, ast.ListComp)) and ok_targets(v):
+                        new = wrap(v.generators, [ast.Expr(value=ast.Yield(value=v.elt))])
+                elif isinstance(s, ast.For) and isinstance(s.target, ast.Name) and isinstance(s.iter, (ast.GeneratorExp, ast.ListComp)) and not s.orelse and ok_targets(s.iter):
+                    x = s.target.id
+                    comp = s.iter
+                    if len(s.body) == 1 and isinstance(s.body[0], ast.Expr) and isinstance(s.body[0].value, ast.YieldFrom) and isinstance(s.body[0].value.value, ast.Name) \
+                            and s.body[0].value.value.id == x and occurrences(x, s) == 0:
+                        new = wrap(comp.generators, [ast.Expr(value=ast.YieldFrom(value=comp.elt))])
+                    elif len(comp.generators) == 1 and isinstance(comp, ast.GeneratorExp):
+                        new = wrap(comp.generators, [ast.Assign(targets=[ast.Name(id=x, ctx=ast.Store())], value=comp.elt)] + s.body)
+                if new is not None:
+                    for n_ in new:
+                        ast.copy_location(n_, s)
+                        ast.fix_missing_locations(n_)
+                    count[0] += 1
+                    out.extend(rec(new))
+                else:
+                    out.append(s)
+            return out
+        fn.body = rec(fn.body)
+
+    for node in ast.walk(tree):
+        if isinstance(node, (ast.FunctionDef, ast.AsyncFunctionDef)):
+            if any(isinstance(n, (ast.Yield, ast.YieldFrom)) for n in ast.walk(node)) or any(isinstance(n, ast.For) and isinstance(n.iter, ast.GeneratorExp) for n in ast.walk(node)):
+                rewrite_function(node)
+    return count[0]
+
+
+def flatten_starred_displays(tree):
+    """N16: `(a, *(b, c), d)` -> `(a, b, c, d)` (also for lists and call arguments)"""
+    count = [0]
+
+    class T(ast.NodeTransformer):
+        def _flat(self, elts):
+            out = []
+            for e in elts:
+                if isinstance(e, ast.Starred) and isinstance(e.value, (ast.Tuple, ast.List)) and not any(isinstance(x, ast.Starred) for x in e.value.elts):
+                    out.extend(e.value.elts)
+                    count[0] += 1
+                else:
+                    out.append(e)
+            return out
+
+        def visit_Tuple(self, node):
+            self.generic_visit(node)
+            if isinstance(node.ctx, ast.Load):
+                node.elts = self._flat(node.elts)
+            return node
+
+        def visit_List(self, node):
+            self.generic_visit(node)
+            if isinstance(node.ctx, ast.Load):
+                node.elts = self._flat(node.elts)
+            return node
+
+        def visit_Call(self, node):
+            self.generic_visit(node)
+            node.args = self._flat(node.args)
+            return node
+    T().visit(tree)
+    return count[0]
+
+
 def normalize(tree):
     n = Normalizer()
     tree = n.visit(tree)
+    n.counts['generators_to_loops'] = generators_to_loops(tree)
     n.counts['loop_to_comprehension'] = loops_to_comprehensions(tree)
     n.counts['enumerate_dropped'] = drop_unused_enumerate(tree)
     return tree, n.counts
